@@ -1226,7 +1226,7 @@ class Opaque:
 # and from the representative inputs - python's own str semantics are the trusted model here
 _PURE_METHODS: dict[type, set[str]] = {
     str: {"endswith", "startswith", "rstrip", "lstrip", "strip", "removesuffix", "removeprefix", "rsplit", "split", "rpartition", "partition", "replace", "find", "rfind", "index", "rindex", "lower", "upper", "casefold", "isdigit", "isdecimal", "isnumeric", "isalpha", "isalnum", "isascii", "count", "join", "format", "title", "capitalize", "zfill", "splitlines", "encode", "translate", "center", "ljust", "rjust", "isspace", "islower", "isupper"},
-    bytes: {"decode", "endswith", "startswith", "rstrip", "lstrip", "strip", "removesuffix", "removeprefix", "rsplit", "split", "rpartition", "partition", "replace", "find", "rfind", "lower", "upper", "count", "join"},
+    bytes: {"decode", "endswith", "startswith", "rstrip", "lstrip", "strip", "removesuffix", "removeprefix", "rsplit", "split", "rpartition", "partition", "replace", "find", "rfind", "index", "rindex", "lower", "upper", "count", "join", "isascii", "isdigit", "isalnum", "isalpha", "islower", "isupper", "splitlines"},
     dict: {"get", "keys", "values", "items", "copy"},
     tuple: {"index", "count"},
     list: {"index", "count", "copy"},
@@ -1274,6 +1274,17 @@ class Concrete:
         try:
             if isinstance(f, ast.Lambda):
                 return self.expr(f.body, env, fn.module)
+            if any(isinstance(n, (ast.Yield, ast.YieldFrom)) for n in walk_no_nested(f)):
+                # a generator function: what it yields, as a list (a pure consumer sees the same values).  An exception
+                # that leaves the generator body would surface where it is consumed, not here: not followed.
+                env["__yields__"] = []
+                try:
+                    self.block(f.body, env, fn.module)
+                except _Ret:
+                    pass
+                except ConcreteRaise as r:
+                    raise NotConcrete(f"an exception ({r.what}) leaves a generator body", r.node or node)
+                return env["__yields__"]
             try:
                 self.block(f.body, env, fn.module)
             except _Ret as r:
@@ -1393,7 +1404,7 @@ class Concrete:
                 try:
                     self.block(st.body, env, m)
                 except ConcreteRaise as r:
-                    h = self.handler_for(st, r, m)
+                    h = self.handler_for(st, r, m, env)
                     if h.name is not None:
                         env[h.name] = Opaque(f"the caught {r.what}")
                     self.block(h.body, env, m)
@@ -1402,6 +1413,28 @@ class Concrete:
             finally:
                 # (a finally block that itself returns / raises replaces what is in flight, as in python)
                 self.block(st.finalbody, env, m)
+        elif isinstance(st, ast.With):
+            # `with contextlib.suppress(E, ...):` is try / except (E, ...): pass; other context managers are not modelled
+            names: list[str] = []
+            for item in st.items:
+                cm = item.context_expr
+                f = self.expr(cm.func, env, m) if isinstance(cm, ast.Call) else None
+                if not (isinstance(f, CExt) and f.fq == "contextlib.suppress") or cm.keywords:  # type: ignore[union-attr]
+                    raise NotConcrete(f"context manager `{ast.unparse(cm)[:40]}`", st)
+                for a in self.elements(cm.args, env, m):  # type: ignore[union-attr]
+                    if not (isinstance(a, CExt) and a.fq.startswith("builtins.")):
+                        raise NotConcrete("contextlib.suppress of a class that is not a builtin exception", st)
+                    names.append(a.fq[9:])
+                if item.optional_vars is not None:
+                    self.assign(item.optional_vars, None, env, m)
+            try:
+                self.block(st.body, env, m)
+            except ConcreteRaise as r:
+                bases = self._EXC_BASES.get(r.what)
+                if bases is None:
+                    raise NotConcrete(f"an exception ({r.what}) inside a with block is not followed", st)
+                if not any(n in bases for n in names):
+                    raise
         elif isinstance(st, ast.Match):
             subject = self.plain(self.expr(st.subject, env, m), st.subject)
             for case in st.cases:
@@ -1430,7 +1463,7 @@ class Concrete:
         "AssertionError": ("AssertionError", "Exception", "BaseException"),
     }
 
-    def handler_for(self, st: ast.Try, r: ConcreteRaise, m: t.Any) -> ast.ExceptHandler:
+    def handler_for(self, st: ast.Try, r: ConcreteRaise, m: t.Any, env: dict | None = None) -> ast.ExceptHandler:
         """the except clause that catches a builtin exception raised by a modelled operation inside the try body; the
         exception propagates (re-raised) when none does; NotConcrete when that cannot be told."""
         bases = self._EXC_BASES.get(r.what)
@@ -1443,10 +1476,19 @@ class Concrete:
             for tp in tps:
                 d = dotted(tp)
                 fq = self.repo.resolve(m, d) if d else None
-                nm = fq[9:] if fq and fq.startswith("builtins.") else None
-                if nm is None:
-                    raise NotConcrete(f"`except {ast.unparse(tp)[:40]}`: not a builtin exception class", h)
-                if nm in bases:
+                if fq and fq.startswith("builtins."):
+                    nms = [fq[9:]]
+                else:
+                    # a name bound to the class / a tuple of classes (`_ERRORS = (UnicodeError,)`): its value
+                    try:
+                        v = self.expr(tp, env if env is not None else {"__closure__": None}, m)
+                    except NotConcrete:
+                        v = None
+                    flat = list(v) if isinstance(v, (tuple, list)) else [v]
+                    if not flat or not all(isinstance(x, CExt) and x.fq.startswith("builtins.") for x in flat):
+                        raise NotConcrete(f"`except {ast.unparse(tp)[:40]}`: not a builtin exception class", h)
+                    nms = [x.fq[9:] for x in flat]
+                if any(nm in bases for nm in nms):
                     return h
         raise r
 
@@ -1555,6 +1597,12 @@ class Concrete:
             raise NotConcrete("unresolved name", node)
         if fq in ("builtins.True", "builtins.False", "builtins.None"):
             return {"True": True, "False": False, "None": None}[fq.split(".")[1]]
+        if fq.startswith("re.") and fq[3:].isupper():
+            import re
+
+            flag = getattr(re, fq[3:], None)
+            if isinstance(flag, re.RegexFlag):
+                return int(flag)
         fi = self.repo.try_func(fq) if fq.startswith("werkzeug.") else None
         if fi is not None:
             return CFn(fi.node, fi.module)
@@ -1671,6 +1719,17 @@ class Concrete:
             return self.call_expr(e, env, m)
         if isinstance(e, ast.Starred):
             raise NotConcrete("starred expression", e)
+        if isinstance(e, (ast.Yield, ast.YieldFrom)):
+            cur: dict | None = env
+            while cur is not None and "__yields__" not in cur:
+                cur = cur.get("__closure__")
+            if cur is None:
+                raise NotConcrete("yield outside a followed generator function", e)
+            if isinstance(e, ast.Yield):
+                cur["__yields__"].append(self.expr(e.value, env, m) if e.value is not None else None)
+            else:
+                cur["__yields__"].extend(self.iterate(self.expr(e.value, env, m), e))
+            return None  # nothing is sent into a generator that is consumed by iteration
         raise NotConcrete(f"expression `{type(e).__name__}`", e)
 
     @staticmethod
@@ -1813,6 +1872,23 @@ class Concrete:
                 return self.watch[f.fq](args, kw)
             if f.fq == "functools.partial" and args:
                 return _Partial(args[0], tuple(args[1:]), dict(kw))
+            if f.fq == "functools.reduce" and len(args) in (2, 3) and not kw:
+                seq = list(self.iterate(args[1], c))
+                if len(args) == 3:
+                    acc = args[2]
+                elif seq:
+                    acc = seq.pop(0)
+                else:
+                    raise ConcreteRaise("TypeError", c)
+                for x in seq:
+                    acc = self.apply(args[0], [acc, x], {}, c)
+                return acc
+            if f.fq == "itertools.chain" and not kw:
+                return [x for a in args for x in self.iterate(a, c)]
+            if f.fq == "itertools.chain.from_iterable" and len(args) == 1 and not kw:
+                return [x for a in self.iterate(args[0], c) for x in self.iterate(a, c)]
+            if f.fq == "itertools.starmap" and len(args) == 2 and not kw:
+                return [self.apply(args[0], list(self.iterate(xs, c)), {}, c) for xs in self.iterate(args[1], c)]
             mod, _, nm = f.fq.rpartition(".")
             if mod == "builtins" and nm in _PURE_BUILTINS:
                 return self.builtin(nm, args, kw, c)
@@ -1849,6 +1925,13 @@ class Concrete:
             return _Method(fn, o)
         raise NotConcrete(f"attribute `{attr}` of the modelled {o.cls or 'object'} is not given", node)
 
+    def value(self, v: t.Any, node: ast.AST | None) -> t.Any:
+        """v as an argument of a python operation that is applied for real: it must be data, not one of the evaluator's
+        own stand-ins (a TypeError python raises on a stand-in says nothing about the analysed code)."""
+        if isinstance(v, (Opaque, CFn, CExt, _Bound, _Method, CObj, CCls, CStub, CMade, _Partial, _M, _Getter)):
+            raise NotConcrete(f"a {type(v).__name__} value is handed to an operation that is applied to data", node)
+        return v
+
     def method(self, obj: t.Any, attr: str, args: list, kw: dict, c: ast.AST) -> t.Any:
         for a in list(args) + list(kw.values()):
             self.plain(a, c)
@@ -1859,6 +1942,9 @@ class Concrete:
                 return getattr(obj.m, attr)(*args, **kw)
             raise NotConcrete(f"match.{attr}", c)
         tp = type(obj)
+        if tp in (str, bytes) and attr in _PURE_METHODS[tp]:
+            for a in list(args) + list(kw.values()):
+                self.value(a, c)
         if attr in _PURE_METHODS.get(tp, ()) or attr in _MUTATORS.get(tp, ()):
             if tp is str and attr == "join":
                 args = [[self.plain(x, c) for x in self.iterate(args[0], c)]] if args else args
@@ -1919,6 +2005,20 @@ class Concrete:
             self.plain(a, c)
         if fq == "typing.cast" and len(args) == 2:
             return args[1]
+        repl_fn = None
+        if fq == "re.sub" and len(args) >= 3 and isinstance(args[1], (CFn, _Partial, _Method)):
+            # a replacement function of the package: called with each match, its (str / bytes) result is what is put in
+            target = args[1]
+
+            def repl_fn(mt: t.Any) -> t.Any:
+                out = self.apply(target, [_M(mt)], {}, c)
+                if not isinstance(out, (str, bytes)):
+                    raise NotConcrete("a replacement function that does not return text", c)
+                return out
+
+            args = [args[0], "", *args[2:]]
+        for a in list(args) + list(kw.values()):
+            self.value(a, c)
         if fq == "operator.itemgetter" and len(args) == 1:
             return _Getter(args[0])
         flags = kw.pop("flags", 0)
@@ -1938,7 +2038,7 @@ class Concrete:
             if fq == "re.sub":
                 if not isinstance(args[1], (str, bytes)):
                     raise NotConcrete("re.sub with a callable replacement", c)
-                return re.sub(args[0], args[1], args[2], *args[3:], flags=flags, **kw)
+                return re.sub(args[0], repl_fn if repl_fn is not None else args[1], args[2], *args[3:], flags=flags, **kw)
             if fq in ("re.split", "re.findall"):
                 return getattr(re, fq[3:])(*args, flags=flags, **kw)
             mt = getattr(re, fq[3:])(*args, flags=flags, **kw)
